@@ -17,7 +17,7 @@ from vlib.core import Stage, fail
 ID = "C06"
 MANIFEST = {
     "category": "exploration",
-    "text": "Generated-input search: unconstrained expressions of the evaluation domain (about half invalid by injecting a neutral-only operand into an O/X over rc-carrying operands, or a bare hint/bare format-constraint pair, at any depth) are judged by the structural criterion computed on the generating AST. The tree evaluator must raise InvalidExpressionError under every one of the 3^m assignments (all when <= 243, else 60 sampled incl. the three constant ones) iff the criterion says invalid; wrapped into AHB expressions of 1-3 parts the same must hold for evaluate_ahb_expression_tree (3^m*2^n content evaluation results) and is_valid_expression must answer (False, reason) resp. (True, None) for the string and for the resolved tree. One slice is enumerated completely: every expression with up to 3 (thorough: 4) atoms over the keys [1], [2], [501], [901], [902] (3 023 / 122 780 expressions, more than half of them invalid) under all assignments.",
+    "text": "Generated-input search: unconstrained expressions of the evaluation domain (about half invalid by injecting a neutral-only operand into an O/X over rc-carrying operands, or a bare hint/bare format-constraint pair, at any depth) are judged by the structural criterion computed on the generating AST. The tree evaluator must raise InvalidExpressionError under every one of the 3^m assignments (all when <= 243, else 60 sampled incl. the three constant ones) iff the criterion says invalid; wrapped into AHB expressions of 1-3 parts the same must hold for evaluate_ahb_expression_tree (3^m*2^n content evaluation results) and is_valid_expression must answer (False, reason) resp. (True, None) for the string and for the resolved tree. One slice is enumerated completely: every expression with up to 3 (thorough: 4) atoms over the keys [1], [2], [501], [901], [902] (3 023 / 122 780 expressions, more than half of them invalid) under all assignments. The AHB stage also evaluates through the shipped ContentEvaluationResult based evaluators with data that contain additional unused entries.",
     "note": "Trusted: ref.validity (structural criterion) and the generator. Expressions whose validity would depend on the unspecified grouping inside an n-ary all-neutral O/X run are never generated. is_valid_expression is only given AHB expressions (with an indicator), as documented. Bounded: <= 10/16 atoms, m+n <= 5 for is_valid_expression. Process configuration by shard (vlib/sut.py; recorded in replay files): plain / parse caches preheated beyond their size / warnings attributed to ahbicht raised as errors / logging fully enabled with every record rendered; one event loop per process or a new one per call; five process time zones; the hash seed is the shard number; namesakes of ahbicht's marshmallow schema classes are registered.",
     "technique": "property-based testing against a structural reference predicate, with exhaustive assignment enumeration per expression",
 }
